@@ -103,7 +103,7 @@ def disp2eig(ctx, rng, evec_disp2eig):
         U = random_unitary(rng, 3 * N, cplx)
         mass = rng.uniform(1.0, 240.0, N)
         m3 = numpy.repeat(mass, 3)
-        s = rng.uniform(0.01, 50.0, 3 * N)
+        s = 10.0 ** rng.uniform(-9.0, 6.0, 3 * N)          # arbitrary norm: fifteen decades
         D = s[:, None] * U / numpy.sqrt(m3)[None, :]
         ctx.count({"disp": N, "complex": cplx, "t": t})
         try:
